@@ -40,13 +40,17 @@ def build(cfg):
         init = [lane_token(10 + r, lanes, gran, 0) for r in range(rows)]
     elif cfg["init"] == "B":
         init = [lane_token(20 + r, lanes, gran, 1) for r in range(max(1, rows - 1))]   # shorter than depth
-    sram = WishboneSRAM(size=size, data_width=dw, granularity=gran, writable=cfg["writable"], init=init)
+    def form(image):
+        # the image may be any iterable: a list, a tuple, or a one-shot iterator / generator
+        f = cfg.get("init_form")
+        return iter(list(image)) if f == "iter" else (x for x in list(image)) if f == "gen" else tuple(image) if f == "tuple" else image
+    sram = WishboneSRAM(size=size, data_width=dw, granularity=gran, writable=cfg["writable"], init=form(init))
     if cfg.get("late_init"):
         # the image replaced through the `init` attribute after construction: full length, or shorter than the one it
         # replaces (the rest of the memory is zero then, as for a short constructor image)
         n = rows if cfg["late_init"] is True else max(0, rows - cfg["late_init"])
         init = [lane_token(30 + r, lanes, gran, 0) for r in range(n)]
-        sram.init = init
+        sram.init = form(init)
     expected_init = ([int(x) for x in init] + [0] * rows)[:rows]
     m = Module()
     m.submodules.sram = sram
@@ -146,6 +150,11 @@ def configs(tier):
     out.append(dict(dw=16, gran=8, rows=2, writable=True, init="A", tokens=2, late_init=1))
     out.append(dict(dw=8, gran=8, rows=4, writable=False, init="A", tokens=1, late_init=2))
     out.append(dict(dw=32, gran=32, rows=2, writable=True, init="B", tokens=2, late_init=2))
+    out.append(dict(dw=16, gran=8, rows=2, writable=True, init="A", tokens=2, init_form="iter"))
+    out.append(dict(dw=8, gran=8, rows=4, writable=False, init="B", tokens=1, init_form="gen"))
+    out.append(dict(dw=32, gran=16, rows=2, writable=True, init="A", tokens=2, init_form="tuple"))
+    out.append(dict(dw=16, gran=16, rows=2, writable=True, init="zero", tokens=2, late_init=True, init_form="gen"))
+    out.append(dict(dw=8, gran=8, rows=2, writable=False, init="A", tokens=1, late_init=1, init_form="iter"))
     out.append(dict(dw=16, gran=8, rows=2, writable=True, init="A", tokens=2, elab_twice=True))
     out.append(dict(dw=32, gran=16, rows=2, writable=False, init="A", tokens=1, elab_twice=True))
     out.append(dict(dw=8, gran=8, rows=4, writable=True, init="B", tokens=2, elab_twice=True))
